@@ -20,13 +20,19 @@ CHECKS = {
     "Neg, Plus, Not, Lt, LtEq, Gt, GtEq, StrictEq, StrictNotEq, Eq, NotEq, the seven bitwise arms, the four conditional jumps, and "
     "JsMapKey eq/hash (SameValueZero, eq => equal hash) are executed symbolically from BytecodeVM::execute_op's MIR and shown equal to the "
     "ECMAScript abstract operations written in SMT. No loop, no bound on values. The relational arms on two strings (value::js_compare) "
-    "equal lexicographic order for all byte strings of up to 3 bytes. Parser, compiler, objects and the library - the bulk of the "
-    "property - are outside the claim.")),
+    "equal lexicographic order for all byte strings of up to 3 bytes; `==`/`!=` between a number or boolean and a string (<= 3/5 bytes) "
+    "compare with the interpreter's own string_to_number (both it and Rust's float parser are uninterpreted functions of the content); "
+    "the opcode sequence emitted for ++/-- applies ToNumber to the loaded value before Add/Sub and before the postfix copy. Block-scope "
+    "exits are a replay route only (`break`/`continue` leaving a scope open is a known finding). Parser, most of the compiler, objects "
+    "and the library - the bulk of the property - are outside the claim.")),
  'C03': dict(design='section 3, C03 (compiler-side kernels; the parser is outside)', text=(
     "Kernel claim, compiler side only. On the real MIR (BytecodeBuilder as events, other Compiler methods abstracted): "
     "compile_statement_impl on TypeAlias / InterfaceDeclaration returns Ok and emits nothing; compile_expression on TypeAssertion / "
     "NonNull / Parenthesized makes exactly one call compile_expression(inner, same destination) and emits nothing else; "
-    "collect_import_requests_internal produces a request iff the import / re-export is not type-only. Concrete annotated-vs-erased "
+    "collect_import_requests_internal produces a request iff the import / re-export is not type-only; compile_export_declaration on a "
+    "type-only export emits nothing; and (relational) in every position where the compiler inspects the shape of an operand - typeof/delete "
+    "operand, call callee, template tag, ++/-- operand, the optional-chain functions, inferred names, enum initialisers - compiling X and "
+    "compiling `X as T` / `X!` produce the same builder calls and compiler calls for six operand shapes. Concrete annotated-vs-erased "
     "program pairs are a replay route only. The parser's treatment of annotations (speculative parses, generics vs comparisons, "
     "overloads, modifiers, declare) - most of the property - is not encodable and outside the claim.")),
  'C04': dict(design='section 3, C04 (kernel changed: see DESIGN.md)', text=(
@@ -110,7 +116,7 @@ CHECKS = {
     "from_saved_state (symbolic old/new values: numbers, object handles, undefined) an object that ends up in a register slot was passed "
     "to Guard::guard on the VM's own register_guard first, the slot holds the new value, a displaced object is unguarded only after the "
     "new one was guarded, and from_saved_state guards every restored register, `this` and call-frame environment on the guard it then "
-    "owns. The guard discipline of the ~400 natives, Traceable for JsObject and the collector are outside the claim.")),
+    "owns and the registers of a suspended outer frame on the guard that frame owns. The guard discipline of the ~400 natives, Traceable for JsObject and the collector are outside the claim.")),
  'C13': dict(design='section 3, C13', engine='E-Kani', technique='bounded model checking of the compiled code with Kani/CBMC (SAT), all values, unwinding assertions on', text=(
     "Kernel claim: the unsafe bitmap kernels of src/gc.rs, decided by Kani/CBMC for ALL values: ChunkBitmask::{set,get,clear} for every "
     "256-bit mask and index < 256 (including in-bounds-ness of the unchecked accesses); UnmarkedIter::next for a fresh iterator and as an "
@@ -140,7 +146,8 @@ CHECKS = {
     "Kernel claim: NULL-argument totality. From the MIR dump built with --features c-api, each of the 64 extern \"C\" tsrun_* entry points "
     "is executed symbolically with every pointer parameter independently NULL or valid (helpers in src/ffi executed for real, everything "
     "behind them abstracted): on every feasible path no caller-supplied pointer is dereferenced (a *p place, CStr::from_ptr, "
-    "slice::from_raw_parts, Box::from_raw, ptr::read/write) while it may still be NULL. Entry points whose exploration exceeds the path "
+    "slice::from_raw_parts, Box::from_raw, ptr::read/write) while it may still be NULL - also inside closures the entry point hands to "
+    "iterators or other abstracted callees (each is run once on arbitrary arguments; `(a..b).map(f).collect()` runs f only when a < b). Entry points whose exploration exceeds the path "
     "budget are listed as not encoded. Lifetimes, use-after-free, string validity and re-entrancy are outside the claim.")),
  'C18': dict(design='section 3, C18', text=(
     "Whole property within bounds. Symbolic execution of the real MIR of ModulePath::{resolve,normalize_path,parent,is_bare,is_relative} "
